@@ -2,6 +2,8 @@
   oracle_c15 — line-protocol driver for the C15 models (bech32, base58, addresses).
   Requests (all byte strings hex, "-" = empty):
     b32enc <hrp> <data5> <m:0|1>          -> ok <str> | none
+    b32src <hrp> <data5> <m:0|1>          -> ok <str> | none   (bech32.Encode with its two hrp loops AS WRITTEN: a range over
+                                             the code points of the string, length test on the loop variable: Bech32Str.encodeSrc)
     b32dec <str>                          -> ok <hrp> <data5> <m> | none
     segenc <hrp> <ver> <prog>             -> ok <str> | none
     segdec <hrp> <str>                    -> ok <ver> <prog> | err <code>
@@ -27,6 +29,7 @@ import GocoinV.Model.AddrWif
 import GocoinV.Model.AddrObj
 import GocoinV.Model.Base58Sched
 import GocoinV.Model.Base58Str
+import GocoinV.Model.Bech32Str
 import GocoinV.Base.Ripemd160
 import GocoinV.Base.Proto
 open GocoinV
@@ -84,15 +87,25 @@ def resStr : Addr.Res → String
 def parseSched (t : String) : Option (List Nat) :=
   if t == "-" then some [] else (t.splitOn ",").mapM (·.toNat?)
 
+/-- a boolean token is exactly "0" or "1"; anything else is a malformed request -/
+def parseBool (t : String) : Option Bool :=
+  if t == "1" then some true else if t == "0" then some false else none
+
 def step (_ : Unit) (toks : List String) : Unit × String :=
   let bad := ((), "bad-op")
   match toks with
   | ["b32enc", hrp, d, m] =>
-    match Hex.decode hrp, Hex.decode d with
-    | some hrp, some d => match Bech32.encode hrp d (m == "1") with
+    match Hex.decode hrp, Hex.decode d, parseBool m with
+    | some hrp, some d, some m => match Bech32.encode hrp d m with
       | some s => ((), s!"ok {Hex.encode s}")
       | none => ((), "none")
-    | _, _ => bad
+    | _, _, _ => bad
+  | ["b32src", hrp, d, m] =>
+    match Hex.decode hrp, Hex.decode d, parseBool m with
+    | some hrp, some d, some m => match Bech32Str.encodeSrc hrp d m with
+      | some s => ((), s!"ok {Hex.encode s}")
+      | none => ((), "none")
+    | _, _, _ => bad
   | ["b32dec", s] =>
     match Hex.decode s with
     | some s => match Bech32.decode s with
@@ -146,13 +159,13 @@ def step (_ : Unit) (toks : List String) : Unit × String :=
         | .b58 v h _ => ((), s!"ok b58 {v.toNat} {Hex.encode h} {optHex (Addr.outScript a)} {re}")
     | _ => bad
   | ["pk", scr, tn] =>
-    match Hex.decode scr with
-    | some scr => match Addr.fromPkScript H scr (tn == "1") with
+    match Hex.decode scr, parseBool tn with
+    | some scr, some tn => match Addr.fromPkScript H scr tn with
       | none => ((), "none")
       | some a =>
         let str := match Addr.toString H a with | some r => Hex.encode r | none => "none"
         ((), s!"ok {str} {optHex (Addr.outScript a)}")
-    | _ => bad
+    | _, _ => bad
   | ["wifdec", s] =>
     match Hex.decode s with
     | some s => match AddrWif.decode CW s with
